@@ -1,11 +1,12 @@
 package props
 
 import (
-	"go/token"
 	"fmt"
 	"go/ast"
 	"go/constant"
+	"go/token"
 	"go/types"
+	"regexp"
 	"strings"
 
 	"gmslverif/fw"
@@ -479,6 +480,26 @@ func checkWellKnown(c *fw.Ctx) {
 	}
 }
 
+var lenOfHelper = regexp.MustCompile(`^\(builtin\.len\(gmsl/fclient\.(\w+)\(param:(allow|deny)Networks\)\) == 0\)$`)
+
+// dropsEntries: h builds its result by appending inside a loop, and some append happens only
+// under a condition other than the loop's own (a filter, as opposed to a copy or a mapping).
+func dropsEntries(h *ssa.Function) bool {
+	for _, call := range fw.CallsTo(h, false, fw.NameIs("builtin.append")) {
+		if hd, _ := fw.LoopOf(call.Block()); hd == nil {
+			continue
+		}
+		for _, f := range fw.DomConds(call.Block()) {
+			t := strings.TrimPrefix(f.String(), "!")
+			if strings.HasPrefix(t, "next(range(") || strings.Contains(t, "< builtin.len(") {
+				continue
+			}
+			return true
+		}
+	}
+	return false
+}
+
 // checkConnectors: enumerate composite literals of connection-making types in fclient (typed AST).
 func checkConnectors(c *fw.Ctx) {
 	rule := "4 who-may-connect"
@@ -704,7 +725,19 @@ func checkConnectors(c *fw.Ctx) {
 						bad = a.String()
 					}
 				})
+				// positive evidence among the conditions that were not understood: emptiness tested
+				// on a *filtered* copy of a configured list (a helper that drops entries)
+				filtered := ""
+				for atom := range unknown {
+					if m := lenOfHelper.FindStringSubmatch(atom); m != nil {
+						if h := c.P.Func("fclient." + m[1]); h != nil && dropsEntries(h) {
+							filtered = m[1] + "(" + m[2] + "Networks)"
+						}
+					}
+				}
 				switch {
+				case filtered != "":
+					c.Fail(rule, construct, c.P.Pos(fw.InstrPos(r)), "the plain dialer is chosen when "+filtered+" is empty, and that helper drops entries: a configured list none of whose entries survives is taken for 'no list configured' and every destination becomes reachable")
 				case len(unknown) > 0:
 					c.Undecided(rule, construct, "conditions not understood: "+strings.Join(sortedSet(unknown), "; "))
 				default:
@@ -973,7 +1006,6 @@ func checkPortParse(c *fw.Ctx, rule string) {
 	}
 }
 
-
 // checkResolvedNameIsOriginal: RoundTrip rewrites r.URL (and r.Host) for every target it tries.
 // The name it hands to ResolveServer must therefore be read from the request before any such
 // rewrite: a read of r.URL.Host that can follow the rewrite (a retry that re-reads the request)
@@ -1048,7 +1080,6 @@ func checkResolvedNameIsOriginal(c *fw.Ctx, rule string, fn *ssa.Function) {
 	c.Ok(rule, construct, c.P.Pos(fw.InstrPos(loads[0].ins)), fmt.Sprintf("%d read(s), %d rewrite(s); no rewrite reaches a read", len(loads), len(stores)))
 }
 
-
 // judge3: a three-valued verdict for a rendered value: ok as expected, wrong when it is
 // positively one of the known wrong quantities, otherwise not decided.
 func judge3(c *fw.Ctx, rule, construct, pos, detail string, ok, wrong bool) {
@@ -1061,7 +1092,6 @@ func judge3(c *fw.Ctx, rule, construct, pos, detail string, ok, wrong bool) {
 		c.Undecided(rule, construct, detail+" (a rendering the rule does not know)")
 	}
 }
-
 
 // checkDialOverride (rule 4, continued): where a DNS cache is configured, getTransport replaces
 // the transport's DialContext by the cache's. The allow / deny lists given to the cache live in
